@@ -16,9 +16,10 @@ RULE = ('generated clusters with several instances per node, instances lacking o
 ASSUMPTIONS = ['the independent load counts every unacknowledged start of the requester on the node once; it is a '
                'lower bound of what the statement requires']
 FLOORS = {'quick': {'requests_checked': 1500, 'requests_near_cap': 100, 'requests_with_pending_load': 100,
-                    'programs_disabled_on_a_peer_seen_checked': 10},
+                    'programs_disabled_on_a_peer_seen_checked': 10, 'processes_added_to_a_non_distributed_job': 50},
           'thorough': {'requests_checked': 40000, 'requests_near_cap': 2500, 'requests_with_pending_load': 2500,
-                       'programs_disabled_on_a_peer_seen_checked': 150}}
+                       'programs_disabled_on_a_peer_seen_checked': 150,
+                       'processes_added_to_a_non_distributed_job': 800}}
 COUNT = {'quick': 640, 'thorough': 12000}
 BUDGET_S = {'quick': 55, 'thorough': 540}
 
